@@ -140,9 +140,17 @@ def exhaustive_cases(rng, prefix, pairs, max_len, cfg=None, limit=None):
 
 def merge(*parts):
     cases, meta, stats = [], {}, {}
-    for p in parts:
+    for k, p in enumerate(parts):
+        pm = {a: b for a, b in p[1].items() if a != "__stats__"}
+        clash = any(cid in meta for cid in pm)
+        if clash:
+            # the same case id in two streams: rename this stream's ids
+            ren = {cid: f"{cid}_{k}" for cid in pm}
+            p = ([" ".join([l.split(" ", 2)[0], ren.get(l.split(" ", 2)[1], l.split(" ", 2)[1]), l.split(" ", 2)[2]]) for l in p[0]],
+                 {ren[a]: ({**b, "pair": ren.get(b["pair"], b["pair"])} if isinstance(b, dict) and "pair" in b else b) for a, b in pm.items()}) + tuple(p[2:])
+            pm = p[1]
         cases.extend(p[0])
-        meta.update(p[1])
+        meta.update(pm)
         if len(p) > 2:
             for k, v in p[2].items():
                 stats[k] = max(stats.get(k, 0), v) if k == "maxdepth" else stats.get(k, 0) + v
@@ -1086,7 +1094,8 @@ def unwrap_doc(rng, ds, de, cfg, unit, depth, tag_units, first_line, k_between=N
                 inner.append("")
             elif c < 0.9:
                 shorter = ind[:rng.randint(0, len(ind))] if ind else ""
-                inner.append(shorter + "z")
+                # less indented than the tag, possibly with blanks at the tag's column inside the text
+                inner.append(shorter + rng.choice(["z", "// keep this note", "x       = 2", "a\tb\tc", "é  é  é", "k v"]))
             else:
                 inner.append(ind + unit + "\t" + "w")
     between.extend(inner)
@@ -1754,7 +1763,7 @@ _P = {
     "C11": mk(gen_c11, DOC_STAGES_CLEAN, oracle_c11, "unwrap-block four lines", RULE_DOC),
     "C12": mk(gen_c11, DOC_STAGES_CLEAN, oracle_c11, "unwrap dedent", RULE_DOC),
     "C13": mk(gen_c13, ["seam", "seam4", "find", "clean", "removed"], oracle_c13, "block-style removal", RULE_DOC, nontrivial_tok),
-    "C14": mk(lambda rng, t: gen_docs(rng, t, p_mut=0.3), DOC_STAGES_CLEAN, oracle_c14, "whitespace confined", RULE_DOC),
+    "C14": mk(lambda rng, t: merge(gen_docs(rng, t, p_mut=0.3), gen_c11(rng, "quick")), DOC_STAGES_CLEAN, oracle_c14, "whitespace confined", RULE_DOC),
     "C15": mk(lambda rng, t: gen_docs(rng, t, p_mut=0.1), ["markers", "list_json", "list_pretty", "clean"], oracle_c15, "list = clean regions", RULE_DOC),
     "C16": mk(lambda rng, t: gen_docs(rng, t, p_mut=0.2), ["list_json", "list_pretty", "lista_json", "lista_pretty"], oracle_c16, "list rendering", RULE_DOC),
     "C17": mk(lambda rng, t: gen_docs(rng, t, p_mut=0.1, kinds=["ready_tl", "pending_tl", "pending_tl", "pending_rm", "ready_rm", "skip"]),
